@@ -20,7 +20,8 @@ RULE = ("random operation histories (length <= 12, thorough <= 16) over a pool o
         "entries), value arrays of mismatched length, all four value types and the classes Signal, "
         "EmptySignal, FunctionSignal, GaussianNoise, a Signal subclass and a FunctionSignal subclass "
         "overriding __radd__; operations: constructors, copy, +, 0+s, s+0, sum, *, reflected *, /, *=, /=, "
-        "with_times, shift, FunctionSignal.filter_frequencies / set_buffers; a step is non-trivial when "
+        "with_times, shift, FunctionSignal.filter_frequencies / set_buffers, and composite steps that filter (and buffer) a "
+        "function-backed signal and add it to a sampled signal on the same grid in either order; a step is non-trivial when "
         "it creates or mutates an object (errors and refusals are counted separately); distinct = "
         "distinct (history prefix, operation) pairs")
 LEVEL_TEXT = ("theorems about the executable object-graph model (every constructor/operation keeps "
@@ -35,7 +36,7 @@ LEVEL_NOTE = ("Assumed: numpy array allocation/copy semantics (np.array copies, 
               "Arrays are float64 (integer dtype arrays make `*=`/`+=` with a float raise and are excluded).  "
               "No theorem is partial.")
 EXTRACTORS = []
-CHECKER_MODULES = ["PyrexVerif.Proofs.SignalsThms", "PyrexVerif.Proofs.SignalsInterp"]
+CHECKER_MODULES = ["PyrexVerif.Proofs.SignalsThms", "PyrexVerif.Proofs.SignalsInterp", "PyrexVerif.Proofs.FnAlgebra"]
 ASSUMPTIONS = ["time grids handed to np.interp / FunctionSignal are strictly increasing (np.interp is undefined otherwise)",
                "arrays are float64; scalars are Python ints/floats",
                "temporaries allocated and dropped inside one operation are not given identities in the model"]
@@ -432,8 +433,37 @@ def gen_history(run, im, nsteps):
         elif r < 0.85:
             g = [float(x) for x in im.objs[k].times]
             do(("withTimes", k, ext(regrid(rng, g))))
-        elif r < 0.93:
+        elif r < 0.90:
             do(("shift", k, rng.choice([0.25, -0.5, 1.0, 2.0, -3.0, 0.75])))
+        elif r < 0.94:
+            # mixed history: a FILTERED (and possibly buffered) function-backed signal combined with a sampled
+            # signal on the same grid, in both operand orders, then scaled and re-gridded
+            fs = [i for i, s in enumerate(im.objs) if isinstance(s, S.FunctionSignal) and len(s.times) >= 2]
+            if not fs:
+                continue
+            k = rng.choice(fs)
+            f = im.objs[k]
+            if not any(len(g) for g in f._filters) or rng.random() < 0.4:
+                do(("filter", k, rng.randrange(4)))
+            if rng.random() < 0.4:
+                do(("setBuffers", k, rng.choice([0.5, 1.0, 2.5]), rng.choice([None, 1.0]), 0))
+            g = [float(x) for x in f.times]
+            t = ext(g)
+            v = ext(gen_values(rng, len(g)))
+            if do(("mk", "signal", t, v, rng.choice(["undefined", vt_name(f)]))).startswith("obj "):
+                j = len(im.objs) - 1
+                order = (("o", k), ("o", j)) if rng.random() < 0.5 else (("o", j), ("o", k))
+                rep = do(("add",) + order)
+                run.count("mixed_filtered_func_plus_sampled")
+                if rep.startswith("obj ") and rng.random() < 0.6:
+                    m = int(rep.split()[1])
+                    do(("mul", m, rng.choice(SCALARS)))
+                    do(("withTimes", m, ext(regrid(rng, g))))
+                if rng.random() < 0.5:          # and function + function, both filtered differently
+                    do(("copy", k))
+                    c = len(im.objs) - 1
+                    do(("filter", c, rng.randrange(4)))
+                    do(("add", ("o", k), ("o", c)))
         else:
             fs = [i for i, s in enumerate(im.objs) if isinstance(s, S.FunctionSignal)]
             if not fs:
@@ -815,6 +845,29 @@ def rederive(im, op, new):
         if list(new.times) != list(nt) or nv != want:
             fail.append("constructor did not pad/truncate: %s for %d times -> %s" % (list(vals), len(nt), nv))
     return fail
+
+
+def known_probes(run):
+    """K15: a function-backed signal on a one-sample grid cannot be evaluated (dt is None there and the
+    buffer bookkeeping divides by it); a sampled Signal handles the same grid."""
+    import numpy as np
+    from pyrex.signals import FunctionSignal, Signal
+    failing = 0
+    for make in (lambda: FunctionSignal([0.0], lambda t: 2 * t + 1).values,
+                 lambda: FunctionSignal([0.0, 1.0, 2.0], lambda t: 2 * t + 1).with_times([0.5]).values):
+        try:
+            v = np.asarray(make(), dtype=float)
+            if v.shape != (1,):
+                failing += 1
+        except TypeError:
+            failing += 1
+    ok_sampled = list(Signal([0.0, 1.0, 2.0], [1, 2, 3]).with_times([0.5]).values) == [1.5]
+    run.case(("known", "K15"), sample={"K15_still_fails": failing, "sampled_signal_ok": ok_sampled})
+    if failing:
+        run.known_finding("K15")
+    if not ok_sampled:
+        run.fail_input("one-sample", {"times": [0.0, 1.0, 2.0], "values": [1, 2, 3], "new_times": [0.5]},
+                       what="Signal.with_times onto a one-sample grid is not the linear interpolation")
 
 
 def search(run, deep):
